@@ -991,7 +991,8 @@ class Simplifier(pysmt.walkers.DagWalker):
             try:
                 return self.manager.Int(int(value))
             except ValueError:
-                return self.manager.Int(-1)
+                # Too many digits for int(): leave the term as it is
+                pass
         return self.manager.StrToInt(s)
 
     def walk_int_to_str(self, formula: FNode, args: List[FNode], **kwargs) -> FNode:
@@ -999,7 +1000,11 @@ class Simplifier(pysmt.walkers.DagWalker):
         if i.is_int_constant():
             if cast(int, i.constant_value()) < 0:
                 return self.manager.String("")
-            return self.manager.String(str(i.constant_value()))
+            try:
+                return self.manager.String(str(i.constant_value()))
+            except ValueError:
+                # Too many digits for str(): leave the term as it is
+                pass
         return self.manager.IntToStr(i)
 
     def walk_bv_tonatural(self, formula: FNode, args: List[FNode], **kwargs) -> FNode:
